@@ -132,7 +132,57 @@ def world_part(res):
         res.violation({"property": "C09", "kind": "obligation", "obligation": "correspondence: daemon without a usable measurement", "first_differences": diffs[:2]}, found_input=False)
 
 
+def restart_part(res):
+    """the daemon died in the middle of an update - notably its first one, the start-up record going over the last
+    record of the instance before: as-of 0 and bound 0 already stored, the status still the old Synchronized - and
+    a new instance starts over the file.  Until that instance publishes, a client that attaches must not be handed
+    the half-written record: what it sees is Unknown (or an error), at every uptime"""
+    import os, shutil
+    from props import _files as F
+    rng = random.Random(res.seed * 31 + 909)
+    root = os.path.join(c.BUILD, "scratch", "c09-restart-%d" % os.getpid())
+    shutil.rmtree(root, ignore_errors=True)
+    os.makedirs(root)
+    lines, meta = [], []
+    for k in range(40 if res.tier == "quick" else 1500):
+        old = (rng.randrange(100, 10 ** 5), rng.randrange(10 ** 9), 0, 0, rng.randrange(1, 10 ** 9), rng.choice([1000, 50000]), rng.choice([1, 2]))
+        old = old[:2] + (old[0] + 1000,) + old[3:]
+        # the update that was under way: the first j fields of the new record are in, the rest is the old record's
+        new = (0, 0, 1000, 0, 0, old[5], 0) if rng.random() < 0.7 else (old[0] + 16, rng.randrange(10 ** 9), old[0] + 1016, 0, 0, old[5], 0)
+        j = rng.randrange(1, 6)
+        torn = new[:j] + old[j:]
+        gen = rng.choice([3, 5, 101, 65535])
+        pth = os.path.join(root, "seg%d" % k)
+        with open(pth, "wb") as fh:
+            fh.write(F.header(gen=gen) + F.record(torn))
+        mono = (torn[0] * NS + torn[1]) + rng.choice([0, 1, NS, 4 * NS, 6 * NS, 500 * NS, 999 * NS])
+        real = rng.randrange(10 ** 9, 2 * 10 ** 9) * NS
+        lines.append("wrn %s %d %d %d %d" % (pth, real // NS, real % NS, mono // NS, mono % NS))
+        meta.append((gen, torn, mono))
+    outs = c.run_lines_hang_aware(c.build_harness("debug")[0], lines, "W:hang")
+    shutil.rmtree(root, ignore_errors=True)
+    bad = []
+    for (gen, torn, mono), ln, o in zip(meta, lines, outs):
+        res.evaluations += 1
+        res.count("gen:client attaching after a restart over a half-written record, before the first publication")
+        res.nontriv(str((gen, torn, mono)))
+        f = dict(x.split(":", 1) for x in o.split())
+        n = f.get("N", "")
+        if n.startswith("ok:") and n.split(":")[5] != "0":
+            bad.append({"case": ln, "file": {"generation": gen, "record_in_the_file": list(torn)}, "impl": o,
+                        "why": ["the previous daemon died in the middle of an update (generation %d, the record in the file is half old, half new: %s); a new daemon started over it and has not "
+                                "published yet; a client attaching at monotonic reading %d is handed status %s with that record's bound" % (gen, list(torn), mono, n.split(":")[5])]})
+        elif "hang" in o or "panic" in o or "crash" in o:
+            bad.append({"case": ln, "file": {"generation": gen, "record_in_the_file": list(torn)}, "impl": o, "why": ["starting over the file, attaching and calling did not complete: " + o]})
+    res.oblige("a client attaching after a restart over a half-written record sees Unknown until the new daemon publishes (%d files)" % len(lines), not bad)
+    if bad:
+        res.violation({"property": "C09", "kind": "input", "case": bad[0], "others": [b["case"] for b in bad[1:4]],
+                       "predicate": "a status other than Unknown is never handed out with a bound that does not originate from a synchronised measurement",
+                       "how_to_replay": "./check C09"})
+
+
 def run(res, proofs_ok, proofs_why):
+    restart_part(res)
     _updater.run_property("C09", res, proofs_ok, proofs_why)
     client_part(res)
     world_part(res)
